@@ -58,6 +58,9 @@ func main() {
 	if id == "c07-idle" {
 		os.Exit(props.C07IdleChild())
 	}
+	if id == "c04-deep" {
+		os.Exit(props.C04DeepChild())
+	}
 	if id == "c07-clock" {
 		n, _ := strconv.Atoi(os.Getenv("VERIF_C07_CLOCK_N"))
 		os.Exit(props.C07ClockChild(seed, n, *tier == "thorough"))
